@@ -23,6 +23,7 @@ var (
 	c15SawB     atomic.Int64 // ... with stage 2's parameter set
 	c15BadEnv   atomic.Int64 // iterations that saw both or neither
 	c15AfterB   atomic.Int64 // stage-1 iterations that started after a stage-2 iteration had run
+	c15Over     atomic.Int64 // iterations that started while another one was executing (each stage has ONE user)
 )
 
 // VerifC15_StagesRunInOrder: the real newStagesWorker / runStage with two users-mode stages (one worker each), each
@@ -30,6 +31,8 @@ var (
 // at any moment and caller cancellation at any moment, over all interleavings (loop unrolling 2):
 //   - every iteration runs with exactly its own stage's parameter in the environment (never both, never none),
 //     and no stage-1 iteration starts after a stage-2 iteration ran (stages strictly one after another)
+//   - at no instant are two iterations executing: each stage has one user, and the users of a finished stage
+//     have left their iteration before the next stage's pool starts (C04 across consecutive users-mode pools)
 //   - when the trigger has returned and the pool manager reports completion, no iteration is in flight (C05) and
 //     none of the stage parameters remains set - also when the run was cancelled mid-stage
 //
@@ -40,7 +43,9 @@ var (
 func VerifC15_StagesRunInOrder() {
 	sc := &scenarios.Scenario{Name: "scn"}
 	sc.RunFn = func(*f1testing.T) {
-		c15InFlight.Add(1)
+		if c15InFlight.Add(1) > 1 {
+			c15Over.Add(1)
+		}
 		c15Started.Add(1)
 		a, b := os.Getenv("STAGE_A"), os.Getenv("STAGE_B")
 		switch {
@@ -75,6 +80,7 @@ func VerifC15_StagesRunInOrder() {
 	zz.CoverIf("C15.stages.both_stages_iterated", c15SawA.Load() > 0 && c15SawB.Load() > 0)
 	zz.Assert("C15.stages.iterations_see_exactly_their_stage_parameters", c15BadEnv.Load() == 0)
 	zz.Assert("C15.stages.strictly_one_after_another", c15AfterB.Load() == 0)
+	zz.Assert("C04.stages.never_more_in_flight_than_the_stage_has_users", c15Over.Load() == 0)
 	zz.Assert("C05.stages.nothing_in_flight_after_completion", c15InFlight.Load() == 0)
 	zz.Assert("C15.stages.no_parameter_remains_set", os.Getenv("STAGE_A") == "" && os.Getenv("STAGE_B") == "")
 	cancel()
@@ -98,3 +104,12 @@ func VerifC05_ConsecutivePoolsComplete() { VerifC15_StagesRunInOrder() }
 //verif:timeout 600
 //verif:deadlock 1
 func VerifC06_ConsecutivePoolsComplete() { VerifC15_StagesRunInOrder() }
+
+// VerifC04_UsersStagesNeverOverlap: the same harness under C04: consecutive users-mode pools of one manager never
+// run side by side, so the number of executing iterations never exceeds the users of the stage in force.
+//
+//verif:conc
+//verif:unroll 2
+//verif:timeout 600
+//verif:deadlock 1
+func VerifC04_UsersStagesNeverOverlap() { VerifC15_StagesRunInOrder() }
